@@ -11,7 +11,7 @@ LEVEL = "model_checking"
 RULE = ("All algorithm variants x 11 partition variants x boxes {[0,1], [0,1]^2, [-2,6]x[0.25,0.5]}: every reward sequence in {0,1,-1}^T "
         "(RNG answers: every split dimension / dyadic split fraction / sampled cell with <= 1 deviation, answered as fractions of the "
         "interval so that the random partitions are driven equivariantly) run in lock-step with shadow instances on affine images of "
-        "the box: exact maps x+1, x-8, x+0.25, 2x, x/2, 4x, 2x+2 (bit-exact comparison where the partition arithmetic is dyadic, 1e-9 "
+        "the box: exact maps x+1, x-8, x+0.25, 2x, x/2, 4x, 2x+2, x+2^20 (bit-exact comparison where the partition arithmetic is dyadic, 1e-9 "
         "otherwise) and the inexact maps 3x, x+0.1 (1e-9; not for Zooming and default-delta DOO whose decisions compare coordinates).  "
         "DOO with its default diameter function is shadowed by translations only.  The quick tier takes a VERIF_SEED-rotated third of "
         "the configurations.  distinct_nontrivial = executions with >= 2 distinct points.")
@@ -21,7 +21,7 @@ VACUITY = [("shadow_pulls", "no shadow pull compared"), ("recommendations_compar
 DYADIC = (0.5, 0.0, 0.25, 1.0 - 2.0 ** -20)
 
 EXACT_MAPS = {"x+1": (1.0, 1.0), "x-8": (1.0, -8.0), "x+0.25": (1.0, 0.25), "2x": (2.0, 0.0), "x/2": (0.5, 0.0), "4x": (4.0, 0.0),
-              "2x+2": (2.0, 2.0)}
+              "2x+2": (2.0, 2.0), "x+2^20": (1.0, 1048576.0)}
 INEXACT_MAPS = {"3x": (3.0, 0.0), "x+0.1": (1.0, 0.1)}
 
 
@@ -68,8 +68,8 @@ def _mk_for(task):
 
     rot = task.get("maps")
     names = sorted(EXACT_MAPS)
-    # quick tier: three of the seven exact maps and one inexact map per configuration (rotated); thorough: all
-    keep = set(names) if rot is None else {names[(rot + j * 2) % 7] for j in range(3)}
+    # quick tier: three of the exact maps plus the large translation x+2^20 and one inexact map per configuration (rotated); thorough: all
+    keep = set(names) if rot is None else ({names[(rot + j * 2) % len(names)] for j in range(3)} | {"x+2^20"})
     keep_in = set(INEXACT_MAPS) if rot is None else {sorted(INEXACT_MAPS)[rot % 2]}
 
     def shadows(ctx):
